@@ -133,6 +133,8 @@ def build(active_known=frozenset()):
         return V.Val.b(a.result) == z3.And(isa(a.eng, a.arg, ast.Constant), z3.Not(singleton(fld(a.pre.st, a.arg, "value"))))
 
     c.ensures("true exactly for constants other than True/False/None/...", lambda a: z3.And(V.is_bool(a.result), ne_post(a)))
+    c.replay(lambda m, ctx, ob: R5_REPLAY.replace("@SKIP@", repr([n for n, k in (("is_ with a constant operand", "C15-is-to-eq"), ("contains operand order", "C15-contains-order")) if k in active_known])))
+    c.replay_without_model = True
 
     # ------------------------------------------------------------------ R5: _optimize_operator_call_attr
     c = pack.contract(f"{mod}:_optimize_operator_call_attr")
@@ -598,6 +600,8 @@ def run(src_call, extra=""):
     return outs
 SKIP = @SKIP@
 for name, call, extra in [
+    ("is_ against None", "OP.is_(E, None)", "class _E:\n    def __eq__(self, o):\n        return True\n    def __ne__(self, o):\n        return False\n    __hash__ = None\nE = _E()"),
+    ("is_not against a boolean", "OP.is_not(E, True)", "class _E:\n    def __eq__(self, o):\n        return True\n    def __ne__(self, o):\n        return False\n    __hash__ = None\nE = _E()"),
     ("wrong arity in a branch that is not taken", "(OP.add(1) if tr(False) else 'ok')", ""),
     ("wrong arity of a unary operator", "(OP.not_(1, 2) if tr(False) else 'ok')", ""),
     ("wrong arity, executed", "OP.sub(tr(1))", ""),
